@@ -290,7 +290,7 @@ func zzH_c02_counter_bytes() {
 //
 //verif:property C02
 //verif:expect-reach end rejected
-//verif:bound abstract group of order 257; plaintext of 2 symbolic bytes; both component orders; one byte of C3 (each of the 32 positions, symbolic) or of C2 changed by an arbitrary non-zero difference, or the key replaced by another one of the group; SM3 and the KDF arbitrary functions
+//verif:bound abstract group of order 257; plaintext of 2 symbolic bytes; both component orders; one byte of C3 (each of the 32 positions, symbolic), of C2 or the leading format byte changed by an arbitrary non-zero difference, or the key replaced by another one of the group; SM3 and the KDF arbitrary functions
 //verif:outside changes to C1 (zzH_c02_offcurve_rejected and the group law); the real hash
 //verif:stub github.com/tjfoc/gmsm/sm3.Sm3Sum zzStubSm3Sum02
 //verif:stub github.com/tjfoc/gmsm/sm2.kdf zzStubKdf02
@@ -312,11 +312,19 @@ func zzH_c02_tamper() {
 	if mode == C1C2C3 {
 		c2off, c3off = 65, 65+L
 	}
-	what := vChoice("alter", 3)
+	what := vChoice("alter", 4)
 	delta := vU8("delta")
 	vAssume(delta != 0)
 	key := priv
 	switch what {
+	case 3:
+		// the point-format byte in front of C1: only 04 (uncompressed) is what Encrypt writes
+		ct[0] ^= delta
+		_, derr := Decrypt(key, ct, mode)
+		vAssert("altered-format-byte-rejected", derr != nil)
+		vReach("rejected")
+		vReach("end")
+		return
 	case 0:
 		ct[c3off+vInt("pos32", 0, 31)] ^= delta
 	case 1:
